@@ -1006,6 +1006,9 @@ class Columns(Widget, WidgetContainerMixin, WidgetContainerListContentsMixin):
             raise ColumnsError("No data to render")
 
         canvas = CanvasJoin(data)
+        if len(size) == 1 and not canvas.rows():
+            # every column is empty, but rows() reports at least one row
+            return SolidCanvas(" ", size[0], 1)
         if size and canvas.cols() < size[0]:
             canvas.pad_trim_left_right(0, size[0] - canvas.cols())
         return canvas
